@@ -184,14 +184,14 @@ func TestRAC_C06(t *testing.T) {
 	for i := 0; i < nr; i++ {
 		run(randomHistory(rng, 3+rng.Intn(8), 9), true)
 	}
-	ne := 40
+	ne := 120
 	if res.thorough() {
 		ne = 600
 	}
 	for i := 0; i < ne; i++ {
 		run(emptyRootHistory(rng), true)
 	}
-	res.Rule = fmt.Sprintf("every history with <= %d leaves / <= %d blocks (+%d seeded random histories, +"+fmt.Sprint(ne)+" seeded histories of 2..40 leaves in which whole trees are emptied and then merged over): apply, then undo every block newest-first; after each undo step the full view (roots, leaf count, GetLeafPosition for every hash class, GetHash at every position, Prove of every singleton and of the full set, verified by all verifiers) is compared with the spec forest of that earlier state; then the same blocks are re-applied and one different block is applied, with the C01 root check. Pollard and MapPollard %v. distinct = histories", maxLeaves, maxBlocks, nr, cfgs)
+	res.Rule = fmt.Sprintf("every history with <= %d leaves / <= %d blocks (+%d seeded random histories, +"+fmt.Sprint(ne)+" seeded histories of 2..47 leaves in which whole trees are emptied and then merged over): apply, then undo every block newest-first; after each undo step the full view (roots, leaf count, GetLeafPosition for every hash class, GetHash at every position, Prove of every singleton and of the full set, verified by all verifiers) is compared with the spec forest of that earlier state; then the same blocks are re-applied and one different block is applied, with the C01 root check. Pollard and MapPollard %v. distinct = histories", maxLeaves, maxBlocks, nr, cfgs)
 	res.Scope = fmt.Sprintf("histories=%d", n)
 	res.write(t)
 }
